@@ -503,7 +503,22 @@ func genDims(r *hx.Run, rng *gen.Rng, do func(string) string) {
 // ---------------------------------------------------------------------------------------------
 // pixels
 
-func genPixels(r *hx.Run, rng *gen.Rng, do func(string) string) {
+func genPixels(r *hx.Run, rng *gen.Rng, do0 func(string) string) {
+	// pixel lines are independent: start a new case every 32 lines so that replays stay short
+	cnt, grp, name := 0, 0, ""
+	do := func(op string) string {
+		if strings.HasPrefix(op, "#case") {
+			name, cnt, grp = strings.TrimPrefix(op, "#case "), 0, 0
+			return do0(op)
+		}
+		if cnt == 32 {
+			grp++
+			cnt = 0
+			do0(fmt.Sprintf("#case %s.%d", name, grp))
+		}
+		cnt++
+		return do0(op)
+	}
 	bnd8 := []int{0, 1, 2, 49, 50, 51, 127, 128, 200, 254, 255}
 	// straight-alpha 8-bit colours: every alpha level x boundary channel values
 	do("#case px:nrgba")
